@@ -250,6 +250,16 @@ func (w *Worker) intrinsic(fn *ssa.Function, args []Val) (Val, bool) {
 		return tp, true
 	case "crypto/sha1.New":
 		return Iface{T: types.NewPointer(w.sha1Type()), V: Ptr{w.allocSha().ID, 0}}, true
+	case "unicode/utf8.ValidString", "unicode/utf8.Valid":
+		bs := w.bytesOf(args[0])
+		if len(bs) <= 4 {
+			return nil, false // short inputs run the real stdlib code
+		}
+		return w.utf8ValidTerm(bs), true
+	case "internal/bytealg.MakeNoZero":
+		n := int(w.concretize(args[0].(*Term), "MakeNoZero"))
+		o := w.allocElems(types.Typ[types.Uint8], n)
+		return Slice{o.ID, 0, n, n, 1}, true
 	case "runtime.KeepAlive", "runtime.GC", "runtime.Gosched":
 		return nil, true
 	}
@@ -442,8 +452,19 @@ func (w *Worker) poolIntrinsic(full string, fn *ssa.Function, args []Val) (Val, 
 		o.Tag = "pool"
 		return Ptr{o.ID, 0}, true
 	case "(*github.com/gobwas/pool.Pool).Get":
-		// generic pool used by wsutil.writers: modelled as always empty (Get misses)
-		return Tuple{Iface{}, args[1]}, true
+		// generic pool used by wsutil.writers (pool.New(128, 65536)): modelled as always empty
+		// (Get misses); the returned size is the size class as the real mapping computes it
+		n := ci(args[1])
+		if n <= 65536 {
+			p := 1
+			for p < n {
+				p <<= 1
+			}
+			if p >= 128 {
+				n = p
+			}
+		}
+		return Tuple{Iface{}, ts.Const(64, uint64(n))}, true
 	case "(*github.com/gobwas/pool.Pool).Put":
 		return nil, true
 	case "github.com/gobwas/pool/pbufio.GetReader":
@@ -514,3 +535,38 @@ func (w *Worker) releaseBufio(v Val, kind string) {
 
 func (w *Worker) sha1Type() types.Type { panic(engineError{"sha1.New unsupported"}) }
 func (w *Worker) allocSha() *Obj      { panic(engineError{"sha1.New unsupported"}) }
+
+// utf8ValidTerm models unicode/utf8.Valid for longer inputs as the Unicode Table 3-7
+// automaton (branch-free term); inputs of <= 4 bytes execute the real stdlib code.
+func (w *Worker) utf8ValidTerm(bs []*Term) *Term {
+	ts := w.ts
+	c := func(v uint64) *Term { return ts.Const(8, v) }
+	in := func(b *Term, lo, hi uint64) *Term {
+		return ts.And(ts.Cmp(OUle, c(lo), b), ts.Cmp(OUle, b, c(hi)))
+	}
+	st := c(0)
+	for _, b := range bs {
+		if b.IsConst() && st.IsConst() && st.C == 0 && b.C < 0x80 {
+			continue
+		}
+		fromStart := ts.Ite(ts.Cmp(OUle, b, c(0x7f)), c(0),
+			ts.Ite(in(b, 0xC2, 0xDF), c(1),
+				ts.Ite(ts.Eq(b, c(0xE0)), c(4),
+					ts.Ite(ts.Or(in(b, 0xE1, 0xEC), in(b, 0xEE, 0xEF)), c(2),
+						ts.Ite(ts.Eq(b, c(0xED)), c(5),
+							ts.Ite(ts.Eq(b, c(0xF0)), c(6),
+								ts.Ite(in(b, 0xF1, 0xF3), c(3),
+									ts.Ite(ts.Eq(b, c(0xF4)), c(7), c(8)))))))))
+		cont := in(b, 0x80, 0xBF)
+		eq := func(v uint64) *Term { return ts.Eq(st, c(v)) }
+		st = ts.Ite(eq(0), fromStart,
+			ts.Ite(eq(1), ts.Ite(cont, c(0), c(8)),
+				ts.Ite(eq(2), ts.Ite(cont, c(1), c(8)),
+					ts.Ite(eq(3), ts.Ite(cont, c(2), c(8)),
+						ts.Ite(eq(4), ts.Ite(in(b, 0xA0, 0xBF), c(1), c(8)),
+							ts.Ite(eq(5), ts.Ite(in(b, 0x80, 0x9F), c(1), c(8)),
+								ts.Ite(eq(6), ts.Ite(in(b, 0x90, 0xBF), c(2), c(8)),
+									ts.Ite(eq(7), ts.Ite(in(b, 0x80, 0x8F), c(2), c(8)), c(8)))))))))
+	}
+	return ts.Eq(st, c(0))
+}
